@@ -1,5 +1,6 @@
 '''C06 - stored values come back intact, and only to their own author, version, target'''
 
+import copy
 import random
 
 from .. import boot, netsim
@@ -77,6 +78,7 @@ def run_history(sim, hseed, res, max_ops=None, thorough=False):
         nops = max_ops
     bad = []
     bumped_since = False
+    history = []  # every content written so far
     trace = []
     info = {'ops': 0}
     for i in range(nops):
@@ -91,7 +93,13 @@ def run_history(sim, hseed, res, max_ops=None, thorough=False):
                 contents = {}
                 for svn, s in a['svs'].items():
                     for vn in s['vals']:
-                        contents[(svn, vn)] = dbsim.payload(rng, sim.next_uid(f'{tk}.{an}.{svn}.{vn}@{tg}/{run}'))
+                        if history and rng.random() < 0.25:
+                            # content that is already in the store under some other (or this very) key
+                            contents[(svn, vn)] = copy.deepcopy(rng.choice(history))
+                            res.count('values_with_repeated_content')
+                        else:
+                            contents[(svn, vn)] = dbsim.payload(rng, sim.next_uid(f'{tk}.{an}.{svn}.{vn}@{tg}/{run}'))
+                        history.append(contents[(svn, vn)])
                 op = ['update', tk, an, tg, run]
                 sim.update(schema, tk, an, tg, run, contents)
                 res.count('updates')
